@@ -7,7 +7,9 @@ from tools import yields
 RULE = (
     "every iterator tool x parameter grid x all item sequences up to length L over 2 keys (ties among distinguishable "
     "items everywhere; 1..4 sources of unequal lengths), consumer runs to exhaustion (cycle: 2*len+1 items); source kinds "
-    "and callable flavours rotated; plus seeded random longer cases over 3 keys. Compared with the real stdlib function on "
+    "and callable flavours rotated; an 'odd values' family puts None / a fillvalue-like object / 0 / False / () — the values "
+    "library-internal sentinels get confused with — at every position of short streams and random positions of random ones; "
+    "plus seeded random longer cases over 3 keys. Compared with the real stdlib function on "
     "the same data: the yielded objects by identity, in order, and the way it ends (exhaustion or exception type). "
     "non-trivial = at least one yield or a raised outcome; distinct by case content"
 )
@@ -96,6 +98,7 @@ def features(case, obs):  # noqa: F811
 def cases(tier, rng):
     yield from _tee_cases(tier)
     yield from s1.base_cases(tier, rng, s1.KINDS_ALL, s1.cons_exhaust, tools_subset=s1.ITER_TOOLS, maxlen=4 if tier == "quick" else 5)
+    yield from s1.odd_value_cases(tier, rng, s1.KINDS_ALL, 1500 if tier == "quick" else 20000, tools_subset=s1.ITER_TOOLS)
     yield from s1.random_cases(tier, rng, s1.KINDS_ALL, 3000 if tier == "quick" else 60000, cons_kinds=("exhaust",), tools_subset=s1.ITER_TOOLS)
 
 
